@@ -468,6 +468,17 @@ def check_exist(prog: Program, res: Result) -> None:
     res.floor(R, 9)
 
 
+def _peel_int(e: ast.AST) -> ast.AST:
+    """int(x) / x.item() / x.long() / x.int() -> x: the same count, as a Python or tensor integer."""
+    while True:
+        if isinstance(e, ast.Call) and isinstance(e.func, ast.Name) and e.func.id == "int" and len(e.args) == 1 and not e.keywords:
+            e = e.args[0]
+        elif isinstance(e, ast.Call) and isinstance(e.func, ast.Attribute) and e.func.attr in ("item", "long", "int") and not e.args:
+            e = e.func.value
+        else:
+            return e
+
+
 def check_offset(prog: Program, res: Result) -> None:
     """FindInstancePeaksGroundTruth.forward walks a batch-FLATTENED list of matched instances with a running offset: frame i
     owns the next counts[i] entries (counts = bincount of the matched frame indices).  The offset advances by exactly that
@@ -502,6 +513,8 @@ def check_offset(prog: Program, res: Result) -> None:
                 continue
             step = astq.expand_at(fn, new.right if norm(new.left) == off else new.left, st, keep=lv)
         n += 1
+        # int(counts[i]) / counts[i].item() / counts[i].long() are the same count
+        step = _peel_int(step)
         ok = isinstance(step, ast.Subscript) and norm(step.slice) in lv
         src = (astq.expand_at(fn, step.value, lp) if isinstance(step.value, ast.Name) else step.value) if ok else None
         ok = ok and isinstance(src, ast.Call) and norm(src.func).split(".")[-1] == "bincount"
@@ -510,7 +523,7 @@ def check_offset(prog: Program, res: Result) -> None:
                "the following frames of the batch read its left-over entries", f"{fi.module.relpath}:{st.lineno}")
         for sl in used:
             up = astq.expand_at(fn, sl.slice.upper, enclosing_stmt(sl), keep=lv + [off]) if sl.slice.upper is not None else None
-            ok2 = isinstance(up, ast.BinOp) and isinstance(up.op, ast.Add) and off in (norm(up.left), norm(up.right)) and norm(step) in (norm(up.left), norm(up.right)) \
+            ok2 = isinstance(up, ast.BinOp) and isinstance(up.op, ast.Add) and off in (norm(up.left), norm(up.right)) and norm(step) in (norm(_peel_int(up.left)), norm(_peel_int(up.right))) \
                 and sl.lineno < st.lineno   # the slice is taken with the offset BEFORE it advances
             res.ob(R, ok2, fi.qualname, "the frame's slice is [offset : offset + count]", f"the frame's slice `{short(sl, 50)}` is not [offset : offset + its match count], taken before "
                    "the offset advances", f"{fi.module.relpath}:{sl.lineno}")
@@ -538,6 +551,17 @@ def check_no_batch_wide_guard(prog: Program, res: Result) -> None:
                 te = astq.expand_at(fi.node, t.test, t if isinstance(t, ast.stmt) else enclosing_stmt(t))
                 if "eff_scale" in norm(te) and any(isinstance(c, ast.Call) and norm(c.func).split(".")[-1] in ("all", "any", "max", "min", "sum", "mean", "item") for c in ast.walk(te)):
                     bad = t
+        # ... nor is ONE frame's value used for the whole batch: a per-frame batch entry is not read at a constant position
+        fixed = None
+        for x in walk_function(fi.node):
+            if isinstance(x, ast.Subscript) and isinstance(astq.const_value(x.slice), int) and not isinstance(astq.const_value(x.slice), bool):
+                base = astq.expand_at(fi.node, x.value, enclosing_stmt(x)) if isinstance(x.value, ast.Name) else x.value
+                base = astq.peel(base, "to", "cpu", "float", "detach", "clone")
+                if isinstance(base, ast.Subscript) and astq.const_value(base.slice) in ("eff_scale", "frame_idx", "video_idx", "orig_size"):
+                    fixed = x
+        res.ob(R, fixed is None, fi.qualname, "per-frame batch entries are read at the frame's own position",
+               f"`{short(fixed, 50) if fixed is not None else ''}` reads the per-frame entry of ONE fixed frame of the batch and applies it to every frame: the result of a frame depends on which "
+               "frame happens to be at that position", f"{fi.module.relpath}:{getattr(fixed, 'lineno', fi.node.lineno)}")
         res.ob(R, bad is None, fi.qualname, "the eff_scale correction is applied per frame, unconditionally",
                f"`{short(bad.test, 60) if bad is not None else ''}` switches the per-frame eff_scale correction by a reduction over the whole batch: a frame's coordinates "
                "depend on which other frames share its batch", f"{fi.module.relpath}:{getattr(bad, 'lineno', fi.node.lineno)}")
@@ -559,6 +583,14 @@ def check(prog: Program, res: Result) -> None:
     # one frame is carried into the next
     # sub-pixel refinement reads the patch of each peak from that peak's own (sample, channel) map
     from . import c06, c07
+    # "every output record carries the frame index of the frame it was computed from": the readers put, for loop index i, the
+    # image of frame i together with frame_idx i (shared with C13)
+    # (samples, channels) merged into one axis are split again in that order (find_global_peaks, find_local_peaks)
+    from . import _reshape
+    _reshape.check_merge_split_order(prog, res, "C12-reshape", ["sleap_nn.inference."])
+    from . import c13 as _c13
+    for r_ in _c13.READERS:
+        res.borrow(lambda p_, r2_, r_=r_: _c13.check_reader(p_, r2_, r_), "C12-reader", prog)
     res.borrow(c07.check_valid, "C12-refine", prog)
     res.borrow(c06.check_refine, "C12-refine", prog)
     check_no_batch_wide_guard(prog, res)
